@@ -4,6 +4,8 @@ import (
 	"go/types"
 
 	"fpcheck/core"
+
+	"golang.org/x/tools/go/packages"
 )
 
 func init() {
@@ -16,5 +18,6 @@ func init() {
 		PanicSafeLock(c, "R-PANICSAFE", fns, 2)
 		CacheGuard(c, "R-CACHEGUARD", libPkgs(c), 2)
 		RawField(c, "R-RAWFIELD", c.Pkg("fp"), 2)
+		SkipEmpty(c, "R-SKIPEMPTY", []*packages.Package{c.Pkg("fp"), c.Pkg("iterator")})
 	})
 }
